@@ -46,6 +46,8 @@ def run(chk):
     chk.guard('invpcid', 'flush_pcid', lambda: pcid(chk))
     chk.guard('invlpgb', 'flush_broadcast', lambda: broadcast(chk))
     chk.guard('invlpgb', 'builder', lambda: builder(chk))
+    chk.guard('invlpgb', 'Invlpgb object', lambda: invlpgb_object(chk))
+    chk.guard('flush-token', 'ignore', lambda: ignore_tokens(chk))
     chk.guard('invlpgb', 'flush loop', lambda: flush_loop(chk))
     chk.guard('asm-options', 'tlb.rs', lambda: asm_not_pure(chk, chk.I, 'asm-options', ['src/instructions/tlb.rs'], 4))
     chk.floor('obligations', len(chk.obs), 74)
@@ -365,3 +367,70 @@ def flush_loop(chk):
                 why.add('a request is issued on the exit path')
         chk.ob('invlpgb', 'flush<%s> with a range: each iteration sends (current start, min(u16(remaining), max)) - clamped to the upper-half boundary while below it - and advances by max(count, 1)' % size,
                good and not why and all(o.kind == 'panic' for o in other), '; '.join(sorted(why)) or '%d iteration paths, %d exit paths' % (len(loops), len(rets)), fn_site(I, B + 'flush'))
+
+
+def invlpgb_object(chk):
+    """Invlpgb::new reads the capabilities from the CPUID leaves AMD documents (Fn8000_0008 EBX[3] = INVLPGB/TLBSYNC supported, EBX[21] = nested
+    translations, EDX[15:0] = maximum page count; Fn8000_000A EBX = number of ASIDs); the accessors and build() hand them to the builder;
+    tlbsync is that instruction"""
+    I = chk.I
+    INV = TLB + 'Invlpgb'
+    outs = I.run(INV + '::new', [], State())
+    chk.count('function-instances')
+    somes = [o for o in outs if o.kind == 'ret' and o.val.vname == 'Some']
+    nones = [o for o in outs if o.kind == 'ret' and o.val.vname == 'None']
+    ok = len(somes) == 1 and len(nones) == 1 and all(o.kind == 'panic' for o in outs if o not in somes + nones)
+    detail = 'paths %r' % (outs,)
+    if ok:
+        o = somes[0]
+        cp = [e for e in o.st.events if e[0] == 'call' and e[1].endswith('__cpuid')]
+        leaves = [eval_value(e[2][0], {}) for e in cp]
+        ok = leaves == [0x80000008, 0x8000000a]
+        v = o.val.fields[0]
+        n1, n2 = (cp[0][5], cp[1][5]) if ok else (None, None)
+        if ok:
+            cap, nested, nasid = v.fields[0], v.fields[1], v.fields[2]
+            ok = same(cap, BV(16, sl('cpuid%d.edx' % n1, 0, 16))) and same(nested, BV(1, [lit('cpuid%d.ebx' % n1, 21)])) and same(nasid, BV.sym(32, 'cpuid%d.ebx' % n2)) and \
+                o.st.env.get(('cpuid%d.ebx' % n1, 3)) == 1
+            detail = 'leaves %s, object %r' % ([hex(x) for x in leaves], v)
+            cpn = [e for e in nones[0].st.events if e[0] == 'call' and e[1].endswith('__cpuid')]
+            ok = ok and len(cpn) >= 1 and nones[0].st.env.get(('cpuid%d.ebx' % cpn[0][5], 3)) == 0
+    chk.ob('invlpgb', 'Invlpgb::new: None unless CPUID 8000_0008 EBX[3]; count max = EDX[15:0], nested = EBX[21], nasid = CPUID 8000_000A EBX', ok, detail, fn_site(I, INV + '::new'))
+    inv = Struct(INV, [BV.sym(16, 'cap'), BV.sym(1, 'nested'), BV.sym(32, 'nasid')])
+    for meth, i in (('invlpgb_count_max', 0), ('tlb_flush_nested', 1), ('nasid', 2)):
+        st = State()
+        ref = arg_obj(st, 'self', inv)
+        o = I.run(INV + '::' + meth, [ref], st)
+        chk.count('function-instances')
+        chk.ob('invlpgb', 'Invlpgb::%s returns its field' % meth, len(o) == 1 and o[0].kind == 'ret' and same(o[0].val, inv.fields[i]), 'paths %r' % (o,), fn_site(I, INV + '::' + meth))
+    st = State()
+    ref = arg_obj(st, 'self', inv)
+    o = I.run(INV + '::build', [ref], st)
+    chk.count('function-instances')
+    ok = len(o) == 1 and o[0].kind == 'ret'
+    if ok:
+        b = o[0].val
+        ok = isinstance(b.fields[0], Ref) and b.fields[0].loc == ('arg', 'self') and all(isinstance(x, Enum) and x.vname == 'None' for x in b.fields[1:4]) and \
+            all(eval_value(x, {}) == 0 for x in b.fields[4:7])
+    chk.ob('invlpgb', 'Invlpgb::build: a builder for this object with no range, PCID or ASID and every option off', ok, 'paths %r' % (o,), fn_site(I, INV + '::build'))
+    st = State()
+    ref = arg_obj(st, 'self', inv)
+    o = I.run(INV + '::tlbsync', [ref], st)
+    chk.count('function-instances')
+    asms = [e for e in o[0].st.events if e[0] == 'asm'] if len(o) == 1 else []
+    chk.ob('invlpgb', 'Invlpgb::tlbsync is one `tlbsync` without operands', len(o) == 1 and o[0].kind == 'ret' and len(asms) == 1 and SI.insns(asms[0][1]) == ['tlbsync'] and not asms[0][2],
+           'paths %r' % (o,), fn_site(I, INV + '::tlbsync'))
+
+
+def ignore_tokens(chk):
+    """ignore() consumes the token without touching the TLB"""
+    I = chk.I
+    M_ = 'structures::paging::mapper::'
+    for fn_, arg in ((M_ + 'MapperFlush::<S>::ignore', Struct(M_ + 'MapperFlush', [I.sym_value(adt(PG, size_ty('Size4KiB')), 'page')])), (M_ + 'MapperFlushAll::ignore', Struct(M_ + 'MapperFlushAll', [UNIT]))):
+        if fn_ not in I.fn:
+            chk.unproven('flush-token', fn_.split('::', 3)[-1], 'function not found (anchor lost)')
+            continue
+        o = I.run(fn_, [arg], State(), {'S': size_ty('Size4KiB')})
+        chk.count('function-instances')
+        chk.ob('flush-token', '%s executes nothing' % fn_.replace(M_, ''), len(o) == 1 and o[0].kind == 'ret' and not [e for e in o[0].st.events if e[0] in ('asm', 'write', 'call', 'rawderef')],
+               'paths %r' % (o,), fn_site(I, fn_))
